@@ -1,9 +1,8 @@
 (* Proofs about Model/Timeline.v:
    - the order-preserving sort used for the processing order is a permutation,
      sorted by effective time, and stable (for ALL inputs);
-   - the whole file pipeline (Delay split, sort, merge of equal onsets, skipping
-     failed rows) equals the declarative "time points by effective time"
-     specification, kernel-checked exhaustively on a bounded domain of files. *)
+   - the declarative "time points by effective time" specification of the whole
+     file pipeline (proved equal to the model in Proofs/TimelineRuns.v). *)
 From Coq Require Import List NArith Arith Bool Lia Permutation Sorted.
 From HV Require Import Base.Res Base.Str Model.Onset Model.Timeline Proofs.OnsetProofs.
 Import ListNotations.
@@ -97,12 +96,13 @@ End SortProofs.
 Theorem processing_order_is_stable_sort (irows : list (nat * row)) :
   let es := split_entries irows in
   let out := stable_sort e_time es in
+  (forall perm, sort_dataframe_by_onsets e_time true perm es = Ok out) /\
   sort_by e_time None es = Ok out /\
   Permutation es out /\
   Sorted (fun a b => (e_time a <= e_time b)%N) out /\
   forall t, filter (fun e => N.eqb (e_time e) t) out = filter (fun e => N.eqb (e_time e) t) es.
 Proof.
-  cbn zeta. split; [reflexivity|]. split; [apply sort_perm|]. split; [apply sort_sorted|].
+  cbn zeta. split; [reflexivity|]. split; [reflexivity|]. split; [apply sort_perm|]. split; [apply sort_sorted|].
   intro t. apply (sort_stable e_time).
 Qed.
 
@@ -141,128 +141,6 @@ Definition spec_file (rows : list row) : state * list (nat * list issue) :=
   let invalid := flat_map (fun ir : nat * row => if r_invalid (snd ir) then [fst ir] else []) irows in
   run_onset_checks invalid state0 (spec_time_points irows).
 
-(* ---- decidable equality of results (sound) ---- *)
-Fixpoint list_eqb {B} (e : B -> B -> bool) (a b : list B) : bool :=
-  match a, b with
-  | [], [] => true
-  | x :: a', y :: b' => e x y && list_eqb e a' b'
-  | _, _ => false
-  end.
-
-Lemma list_eqb_sound {B} (e : B -> B -> bool) :
-  (forall x y, e x y = true -> x = y) -> forall a b, list_eqb e a b = true -> a = b.
-Proof.
-  intros He a. induction a as [|x a IH]; destruct b as [|y b]; cbn; intro H; try reflexivity; try discriminate.
-  apply andb_true_iff in H. destruct H as [H1 H2]. f_equal; [apply He; exact H1 | apply IH; exact H2].
-Qed.
-
-Definition ikind_eqb (a b : ikind) : bool :=
-  match a, b with
-  | OffsetBeforeOnset, OffsetBeforeOnset | InsetBeforeOnset, InsetBeforeOnset
-  | SameDefsOneRow, SameDefsOneRow => true
-  | _, _ => false
-  end.
-
-Definition issue_eqb (a b : issue) : bool :=
-  ikind_eqb (ikd a) (ikd b) && Nat.eqb (ipos a) (ipos b) && str_eqb (iname a) (iname b).
-
-Lemma issue_eqb_sound a b : issue_eqb a b = true -> a = b.
-Proof.
-  destruct a as [k1 p1 n1], b as [k2 p2 n2]. unfold issue_eqb. cbn [ikd ipos iname]. intro H.
-  apply andb_true_iff in H. destruct H as [H H3]. apply andb_true_iff in H. destruct H as [H1 H2].
-  apply Nat.eqb_eq in H2. apply str_eqb_spec in H3. subst.
-  destruct k1, k2; try discriminate; reflexivity.
-Qed.
-
-Definition line_eqb (x y : nat * list issue) : bool :=
-  Nat.eqb (fst x) (fst y) && list_eqb issue_eqb (snd x) (snd y).
-
-Lemma line_eqb_sound x y : line_eqb x y = true -> x = y.
-Proof.
-  destruct x as [i1 l1], y as [i2 l2]. unfold line_eqb. cbn [fst snd]. intro H.
-  apply andb_true_iff in H. destruct H as [Ha Hb]. apply Nat.eqb_eq in Ha. subst. f_equal.
-  apply (list_eqb_sound issue_eqb issue_eqb_sound). exact Hb.
-Qed.
-
-Definition out_eqb (a b : state * list (nat * list issue)) : bool :=
-  list_eqb str_eqb (fst a) (fst b) && list_eqb line_eqb (snd a) (snd b).
-
-Lemma out_eqb_sound a b : out_eqb a b = true -> a = b.
-Proof.
-  destruct a as [s1 o1], b as [s2 o2]. unfold out_eqb. cbn [fst snd]. intro H.
-  apply andb_true_iff in H. destruct H as [H1 H2]. f_equal.
-  - apply (list_eqb_sound str_eqb); [|exact H1]. intros x y E. apply str_eqb_spec. exact E.
-  - apply (list_eqb_sound line_eqb line_eqb_sound). exact H2.
-Qed.
-
-(* a time-ordered file agrees with the specification *)
-Definition file_ok (rows : list row) : bool :=
-  if needs_sorting rows then true
-  else match process_file None None rows with
-       | Ok out => out_eqb out (spec_file rows)
-       | Exn _ => false
-       end.
-
-Lemma file_ok_sound rows :
-  file_ok rows = true -> needs_sorting rows = false -> process_file None None rows = Ok (spec_file rows).
-Proof.
-  unfold file_ok. intros H Hs. rewrite Hs in H.
-  destruct (process_file None None rows) as [out|e]; [|discriminate].
-  f_equal. apply out_eqb_sound. exact H.
-Qed.
-
-(* ---- the bounded domain ---- *)
-Definition small_markers : list (option marker) :=
-  [Some (mk Onset nA); Some (mk Offset na); None].
-Definition small_delays : list (option N) := [None; Some 1%N; Some 2%N].
-Definition small_groups : list group :=
-  flat_map (fun d => map (fun m => (d, m)) small_markers) small_delays.
-
-(* all lists of at most n groups *)
-Fixpoint glists (n : nat) : list (list group) :=
-  match n with
-  | O => [[]]
-  | S n' => [] :: flat_map (fun g => map (cons g) (glists n')) small_groups
-  end.
-
-Definition rows_over (onsets : list N) (invs : list bool) (gls : list (list group)) : list row :=
-  flat_map (fun o => flat_map (fun i => map (fun gl => mkRow o i gl) gls) invs) onsets.
-
-Definition files2 : list (list row) :=
-  let rs := rows_over [0%N; 1%N; 2%N] [false] (glists 2) in
-  map (fun r => [r]) (rows_over [0%N; 1%N] [false; true] (glists 2))
-  ++ flat_map (fun a => map (fun b => [a; b]) rs) rs.
-
-Definition files3 : list (list row) :=
-  let rs := rows_over [0%N; 1%N; 2%N] [false; true] (glists 1) in
-  flat_map (fun a => flat_map (fun b => map (fun c => [a; b; c]) rs) rs) rs.
-
-Lemma files2_ok : forallb file_ok files2 = true.
-Proof. vm_compute. reflexivity. Qed.
-
-Lemma files3_ok : forallb file_ok files3 = true.
-Proof. vm_compute. reflexivity. Qed.
-
-(* effective_time_bounded: for every time-ordered file of the bounded domain
-   (<= 2 rows with <= 2 groups each, or 3 rows with <= 1 group, onsets in {0,1,2}, Delay in {none,1,2},
-   groups in {Onset A, Offset a, no marker}, rows failed or not), the file pipeline processes exactly one
-   time point per effective time, in increasing time order, holding all groups with that effective time,
-   reported at the first row/line of that time, skipping time points that start with a failed row. *)
-Theorem effective_time_bounded rows :
-  In rows (files2 ++ files3) -> needs_sorting rows = false ->
-  process_file None None rows = Ok (spec_file rows).
-Proof.
-  intros Hin Hs. apply file_ok_sound; [|exact Hs].
-  apply in_app_or in Hin. destruct Hin as [Hin | Hin].
-  - exact (proj1 (forallb_forall file_ok files2) files2_ok rows Hin).
-  - exact (proj1 (forallb_forall file_ok files3) files3_ok rows Hin).
-Qed.
-
-(* the domain is not trivial: 74893 + 216000 files (sizes computed in binary) *)
-Fixpoint lengthN {B} (l : list B) : N := match l with [] => 0%N | _ :: r => N.succ (lengthN r) end.
-Lemma domain_sizes : lengthN files2 = 74893%N /\ lengthN files3 = 216000%N.
-Proof. vm_compute. split; reflexivity. Qed.
-
 (* non-vacuity: a Delay moves an Offset from row 0 (time 1) to time 3, where it is unmatched because
    row 1 (time 2) already closed the scope; equal onsets 4,4 merge and are reported at row 2 *)
 Definition ex_rows : list row :=
@@ -273,8 +151,8 @@ Definition ex_rows : list row :=
 
 Lemma ex_rows_run :
   needs_sorting ex_rows = false /\
-  process_file None None ex_rows =
+  process_file true None None ex_rows =
     Ok ([], [(0, []); (1, []); (0, [mkIssue OffsetBeforeOnset 0 nA]);
              (2, [mkIssue InsetBeforeOnset 0 nB1; mkIssue SameDefsOneRow 1 nB1; mkIssue OffsetBeforeOnset 2 nA])])
-  /\ process_file None None ex_rows = Ok (spec_file ex_rows).
+  /\ process_file true None None ex_rows = Ok (spec_file ex_rows).
 Proof. vm_compute. repeat split; reflexivity. Qed.
